@@ -49,7 +49,10 @@ func Parse(fset *token.FileSet, filename string, src []byte) (*File, error) {
 
 	src, augs, adjs, err := augment.Augment(src)
 	if err != nil {
-		return nil, err
+		// Positions in these errors refer to the scanned source, not to
+		// the patch file. Name the file so that the error can be traced
+		// back to the patch it came from.
+		return nil, fmt.Errorf("%v: %w", filename, err)
 	}
 	sort.Sort(sort.Reverse(byOffset(adjs)))
 
